@@ -7,6 +7,7 @@ import (
 	"go/parser"
 	"go/token"
 	"go/types"
+	"math/big"
 	"strconv"
 	"strings"
 
@@ -590,6 +591,9 @@ func (e *Env) applyPure(p *PureFn, args []Val) Val {
 	if e.depth > 20 {
 		e.fail("pure function recursion too deep in %s", p.Name)
 	}
+	if p.Opaque {
+		return e.applyOpaque(p, args, rs, rt)
+	}
 	n := *e
 	n.depth++
 	n.bound = map[string]Val{}
@@ -737,6 +741,19 @@ func (e *Env) evalCall(n *ast.CallExpr) Val {
 			x = App("to_real", SReal, x)
 		}
 		return Val{Typ: types.Typ[types.Float64], C: []*T{x}}
+	case "f64":
+		// f64(lit): the float64 nearest to a literal, as an exact rational
+		lit, ok := n.Args[0].(*ast.BasicLit)
+		if !ok {
+			e.fail("f64(literal)")
+		}
+		f, err := strconv.ParseFloat(lit.Value, 64)
+		if err != nil {
+			e.fail("f64: %v", err)
+		}
+		r := new(big.Rat)
+		r.SetFloat64(f)
+		return Val{Typ: types.Typ[types.Float64], C: []*T{RealLit(r)}}
 	case "seqeq":
 		// seqeq(a, b): slices with equal length and contents
 		a, b := arg(0), arg(1)
@@ -956,4 +973,62 @@ func mentions(t *T, name string) bool {
 		}
 	}
 	return false
+}
+
+
+// applyOpaque renders a spec function as an uninterpreted function specialised to the heap terms its body reads
+// in the current state, with a definitional axiom (forall params. f(params) = body) triggered on f(params).
+func (e *Env) applyOpaque(p *PureFn, args []Val, rs Sort, rt types.Type) Val {
+	n := *e
+	n.depth++
+	if e.st != nil {
+		n.st = e.st.Clone()
+	}
+	n.bound = map[string]Val{}
+	for k, v := range e.bound {
+		n.bound[k] = v
+	}
+	var params []*T
+	for i, pn := range p.Params {
+		pv := Val{Typ: args[i].Typ, Addr: args[i].Addr}
+		for j, c := range args[i].C {
+			s := Sym(fmt.Sprintf("%s!%s%d", p.Name, pn, j), c.S)
+			pv.C = append(pv.C, s)
+			params = append(params, s)
+		}
+		n.bound[pn] = pv
+	}
+	ex, err := parseSpecExpr(p.Body)
+	if err != nil {
+		e.fail("%v", err)
+	}
+	body := n.eval(ex)
+	if len(body.C) != 1 {
+		e.fail("spec function %s must return a scalar", p.Name)
+	}
+	bt := body.C[0]
+	h := fnvHash(bt.String())
+	fname := fmt.Sprintf("pf_%s_%s", p.Name, h)
+	var actual []*T
+	for _, a := range args {
+		actual = append(actual, a.C...)
+	}
+	if len(params) == 0 {
+		return Val{Typ: rt, C: []*T{bt}}
+	}
+	app := App(fname, bt.S, params...)
+	if _, ok := e.x.prog.defAxioms[fname]; !ok {
+		e.x.prog.defAxioms[fname] = Forall(params, pattern(Eq(app, bt), app))
+	}
+	_ = rs
+	return Val{Typ: rt, C: []*T{App(fname, bt.S, actual...)}}
+}
+
+func fnvHash(s string) string {
+	var h uint64 = 14695981039346656037
+	for i := 0; i < len(s); i++ {
+		h ^= uint64(s[i])
+		h *= 1099511628211
+	}
+	return strconv.FormatUint(h, 36)
 }
